@@ -43,11 +43,14 @@ class Reach(object):
                 continue
             for label, text in markers.items():
                 name = "%s:%s" % (qualname, label)
+                nth = 0
+                if isinstance(text, (tuple, list)):
+                    text, nth = text
                 found = [i for i, l in enumerate(src) if text in l]
-                if not found:
+                if len(found) <= nth:
                     self.unknown.append(name)
                     continue
-                self.lines[(code, first + found[0])] = name
+                self.lines[(code, first + found[nth])] = name
                 self.hit[name] = 0
             self.codes.append(code)
             mon.set_local_events(TOOL, code, mon.events.LINE)
